@@ -323,6 +323,8 @@ fn adversarial(family: usize, len: usize, kind: u8) -> (Vec<u8>, u8) {
                 if family == 18 { b.push(b'a'); }
                 b.extend_from_slice(&[0xC3, 0xA9]);
             }
+            // the target is validated once its delimiter has been seen
+            if kind == K_REQ { b.extend_from_slice(b" HTTP/1.1\r\nA: b"); }
         }
         21 => {
             // header values alternating ASCII and obs-text bytes, several headers
